@@ -96,10 +96,13 @@ func (r routecmd) build() []string {
 				cfg += " weight " + weight
 			}
 			if len(svctags) > 0 {
-				cfg += " tags " + strconv.Quote(strings.Join(svctags, ","))
+				// the route parser reads quoted values verbatim, i.e. without
+				// unescaping them. Values with a double quote cannot be
+				// expressed and fail the validation below.
+				cfg += " tags \"" + strings.Join(svctags, ",") + "\""
 			}
 			if len(ropts) > 0 {
-				cfg += " opts " + strconv.Quote(strings.Join(ropts, " "))
+				cfg += " opts \"" + strings.Join(ropts, " ") + "\""
 			}
 
 			// a command which fabio's own route parser rejects would make every
